@@ -181,6 +181,11 @@ def main(tier, seed):
                             chk.violation('completion-blank-position', 'path-model', pr[:700], {'kind': 'blank', 'text': marked}, confirmed=True)
                     else:
                         chk.validated += 1
+        rprobs = dotk.rebinding_probes(oracle)
+        for pr in rprobs[:2]:
+            chk.violation('completion-shadowed-binding', 'probe', pr[:700], {'kind': 'rebinding'}, confirmed=True)
+        if not rprobs:
+            chk.validated += len(dotk.REBIND)
         nb, bprobs = dotk.blank_after_statement(oracle)
         for pr in bprobs[:3]:
             chk.violation('completion-blank-position:after-statement', 'enumerated', pr[:700], {'kind': 'blank-after-statement'}, confirmed=True)
